@@ -747,6 +747,82 @@ def rule_h_at_the_evaluated_point(eng, rep, rule="C03-5b.stored-objective-adds-h
     rep.require_count(rule, "h call sites in Model methods (over the regulariser configurations)", n, 3)
 
 
+def rule_extra_samples_are_all_added(eng, rep, rule="C03-9b.every-sample-after-the-first-is-averaged-into-the-stored-residual"):
+    """'soln.resid is the mean of the residual vectors returned there': a store that takes only the first sample of an evaluation (`change_point(k, x, R[0, :], ..)` /
+    `add_new_point(x, R[0, :], ..)`) must be followed, on every path to the end of the function or to the next evaluation, by the loop
+    `for i in range(1, <samples run>): add_new_sample(.., R[i, :])` over the same buffer R.  Without it the extra samples are evaluated (and counted against the budget)
+    but the stored residual, its objective and its sample count describe the first sample only."""
+    STORES = ("model.Model.change_point", "model.Model.add_new_point")
+    n = 0
+    for fi in sorted(eng.prog.functions.values(), key=lambda f: f.fid):
+        if fi.is_lambda or fi.cls == "Model":
+            continue
+        firsts = []
+        for ci in eng.calls_in(fi):
+            if not any(t.fid in STORES for t in ci.targets):
+                continue
+            for a in list(ci.node.args) + [kw.value for kw in ci.node.keywords]:
+                if isinstance(a, ast.Subscript) and isinstance(a.value, ast.Name) and isinstance(a.slice, ast.Tuple) and a.slice.elts and const_value(a.slice.elts[0]) == 0:
+                    firsts.append((ci.node, a.value.id))
+        if not firsts:
+            continue
+        cfg = eng.cfg(fi)
+        loops = {}
+        for lp in [x for x in eng.prog.own_nodes(fi) if isinstance(x, ast.For)]:
+            it = lp.iter
+            if isinstance(lp.target, ast.Name) and isinstance(it, ast.Subscript) and isinstance(it.value, ast.Name):
+                # `for r in R[1:N, :]: add_new_sample(k, r)` -- the rows after the first, walked directly
+                sl0 = it.slice.elts[0] if isinstance(it.slice, ast.Tuple) and it.slice.elts else it.slice
+                if isinstance(sl0, ast.Slice) and const_value(sl0.lower) == 1 and sl0.step is None:
+                    for st in lp.body:
+                        if isinstance(st, ast.Expr) and isinstance(st.value, ast.Call):
+                            c = st.value
+                            cc = eng.res.calls.get(id(c))
+                            if cc is not None and any(t.fid == "model.Model.add_new_sample" for t in cc.targets) \
+                                    and any(isinstance(a, ast.Name) and a.id == lp.target.id for a in list(c.args) + [kw.value for kw in c.keywords]):
+                                loops.setdefault(it.value.id, []).append(cfg.cfg_node(lp.iter))
+                continue
+            if not (isinstance(it, ast.Call) and isinstance(it.func, ast.Name) and it.func.id == "range" and len(it.args) == 2 and const_value(it.args[0]) == 1
+                    and isinstance(lp.target, ast.Name)):
+                continue
+            for st in lp.body:              # the call must be a statement of the loop body itself (runs on every pass)
+                if isinstance(st, ast.Expr) and isinstance(st.value, ast.Call):
+                    c = st.value
+                    cc = eng.res.calls.get(id(c))
+                    if cc is None or not any(t.fid == "model.Model.add_new_sample" for t in cc.targets):
+                        continue
+                    for a in list(c.args) + [kw.value for kw in c.keywords]:
+                        if isinstance(a, ast.Subscript) and isinstance(a.value, ast.Name) and isinstance(a.slice, ast.Tuple) and a.slice.elts \
+                                and ekey(a.slice.elts[0]) == lp.target.id:
+                            loops.setdefault(a.value.id, []).append(cfg.cfg_node(lp.iter))
+        evals = {}
+        for k, d in cfg.g.nodes(data=True):
+            st = d["ast"]
+            if d["kind"] == "stmt" and isinstance(st, ast.Assign) and isinstance(st.value, ast.Call):
+                for t in st.targets:
+                    for nm in assigned_names(t):
+                        evals.setdefault(nm, set()).add(k)
+        for (call, R) in firsts:
+            n += 1
+            site = eng.where(fi, call)
+            cn = cfg.cfg_node(call)
+            heads = set(loops.get(R, []))
+            bad = None
+            for tgt in [cfg.exit] + sorted(evals.get(R, set()) - {cn}):
+                p = cfg.path_avoiding(cn, tgt, heads)
+                if p is not None and len(p) > 1:
+                    bad = p
+                    break
+            if not heads or bad is not None:
+                rep.bad(rule, site, "%s|extra-samples-not-added|%s" % (fi.fid, short(call.func, 30)),
+                        "`%s` stores the first sample of `%s` only and %s: the other samples that were run are never averaged in"
+                        % (short(call, 60), R, "no loop `for i in range(1, ..): add_new_sample(.., %s[i, :])` exists in this function" % R if not heads else "a path to the end of the function / the next evaluation avoids that loop"),
+                        path=cfg.describe_path(bad)[-6:] if bad else None)
+            else:
+                rep.ok(rule, site, "the store of `%s[0, :]` is followed on every path by the loop that adds samples 1.. of `%s`" % (R, R))
+    rep.require_count(rule, "stores of the first sample of an evaluation", n, 4)
+
+
 def run(eng, rep):
     rep.explain("C03: role provenance on the value-flow graph (T4) for the evaluation-number and sample-count plumbing (two roles solved together, "
                 "blame = edge where a value that cannot reach a producer of the role enters plumbing otherwise fed by it); at every "
@@ -774,5 +850,6 @@ def run(eng, rep):
             sinks.append(vfg.key_of(e))
     rep.guarded(rule_snapshots_are_copies, eng, rep, "C03-8.saved-and-returned-records-are-copies", sinks, "the saved-point slot / soln.x / soln.resid")
     rep.guarded(rule_mean_over_samples_run, eng, rep, "C03-9.means-are-taken-over-the-samples-actually-run")
+    rep.guarded(rule_extra_samples_are_all_added, eng, rep)
     from .records import rule_eval_results_are_fresh
     rep.guarded(rule_eval_results_are_fresh, eng, rep, "C03-10.evaluation-results-are-fresh-arrays")
